@@ -85,8 +85,16 @@ func (propC09) Gen(r *Rng, idx int, tier string) *Scenario {
 	for i := 0; i < nf; i++ {
 		for try := 0; try < 8; try++ {
 			if f, ok := genArgFault(fr, sc.Decl, p.Plan, twinCalls); ok {
-				p.Faults = append(p.Faults, f)
-				break
+				dup := false
+				for _, g := range p.Faults {
+					if f.Callee != nil && g.Callee != nil && f.Callee.Kind == g.Callee.Kind && f.Callee.Nth == g.Callee.Nth {
+						dup = true
+					}
+				}
+				if !dup {
+					p.Faults = append(p.Faults, f)
+					break
+				}
 			}
 		}
 	}
@@ -186,6 +194,16 @@ func c09Run(sc *Scenario, argv []string, callee []CalleeFault, env map[string]st
 	return Execute(&s2, nil)
 }
 
+// injectedIs: is the returned error (by identity) the injected error with this id?
+func injectedIs(r *OpResult, id int) bool {
+	for _, x := range r.InjectedIDs {
+		if x == id {
+			return true
+		}
+	}
+	return r.Injected == id && id != 0
+}
+
 func execCalls(calls []Call) (execs, handlers []Call) {
 	for _, c := range calls {
 		switch c.Kind {
@@ -258,7 +276,7 @@ func c09Oracle(v *Verdict, d *DeclSpec, r *OpResult, target string, label string
 					n++
 				}
 			}
-			if failing != nil && failing.Fail == r.Injected {
+			if failing != nil && injectedIs(r, failing.Fail) {
 				// the invocation happened and its error came back by identity: check "exactly once"
 				if len(execs) > 1 || len(handlers) > 1 {
 					v.fail("c09:executed-more-than-once", "more than one invocation: "+desc)
